@@ -1,15 +1,19 @@
 #!/bin/bash
-# re-test every kept seed against the current tree; writes seeded/RESULTS.md
+# re-test every kept seed against the current tree; writes seeded/RESULTS.md.  VERIF_DIR=<clone> runs the checks in that clone
+# (against the tree named in its .verif_repo) so that /repo and /verif stay untouched; see tools/seed_test.sh.
 cd /verif
-echo "| seed | property | result on $(git -C /repo rev-parse --short HEAD) |" > /tmp/seed_results.md; echo "|---|---|---|" >> /tmp/seed_results.md
+V=${VERIF_DIR:-/verif}; R=$(cat $V/.verif_repo 2>/dev/null || echo /repo)
+T=$(mktemp)
+echo "Every kept seeded change re-applied to the code tree ($(git -C $R rev-parse --short HEAD), $(date -u +%Y-%m-%dT%H:%MZ)) and the quick check of its property run (tools/seed_all.sh → tools/seed_test.sh)." > $T
+echo >> $T; echo "| seed | property | result |" >> $T; echo "|---|---|---|" >> $T
 for d in seeded/*/; do
   s=$(basename $d); id=$(python3 -c "import json;print(json.load(open('$d/meta.json'))['property'])")
-  if [ -n "$SKIP" ] && echo " $SKIP " | grep -q " $id "; then echo "| $s | $id | skipped (check currently being repaired) |" | tee -a /tmp/seed_results.md; continue; fi
+  if [ -n "$SKIP" ] && echo " $SKIP " | grep -q " $id "; then echo "| $s | $id | skipped |" | tee -a $T; continue; fi
   out=$(tools/seed_test.sh $d/patch.diff $id 2>&1)
   if echo "$out" | grep -q "patch does not apply"; then r="PATCH DOES NOT APPLY (needs rebase)";
   elif echo "$out" | grep -q "^VIOLATION.*no-failing-input-found" && ! echo "$out" | grep "^VIOLATION" | grep -qv "no-failing-input-found"; then r="VIOLATION no-failing-input-found";
-  elif echo "$out" | grep -q "^VIOLATION"; then r="VIOLATION with replay ($(echo "$out" | grep -c '^VIOLATION') lines)";
+  elif echo "$out" | grep -q "^VIOLATION"; then r="VIOLATION with replay";
   else r="MISSED (exit 0)"; fi
-  echo "| $s | $id | $r |" | tee -a /tmp/seed_results.md
+  echo "| $s | $id | $r |" | tee -a $T
 done
-cp /tmp/seed_results.md seeded/RESULTS.md
+cp $T seeded/RESULTS.md; rm -f $T
